@@ -232,3 +232,358 @@ def gen_flathomogen(rng, tier):
         if op == 0:
             out.append([n, maxnan, idx, x, list(o)])
     return out
+
+
+# ----------------------------------------------------------------------------- more gis generators
+def acyclic_grids(rng, tier, n=60):
+    """flow direction grids without cycles: every cell points to a cell with a strictly smaller 'height' or off-grid / sink"""
+    fdc = flowdircode(); out = []
+    dims = [(1, 1), (1, 2), (1, 3), (2, 2), (2, 3), (3, 3), (3, 4), (4, 4), (1, 5), (5, 1)]
+    for _ in range(n if tier == 'quick' else n * 8):
+        nr, nc = rng.choice(dims)
+        h = list(range(nr * nc)); rng.shuffle(h)
+        fd = []
+        for c in range(nr * nc):
+            r0, c0 = divmod(c, nc); opts = [0, 3]
+            for k in range(9):
+                if k == 4: continue
+                r1, c1 = r0 + k // 3 - 1, c0 + k % 3 - 1
+                if 0 <= r1 < nr and 0 <= c1 < nc:
+                    if h[r1 * nc + c1] < h[c]: opts.append(fdc[k])
+                else:
+                    opts.append(fdc[k])
+            fd.append(rng.choice(opts))
+        out.append((nr, nc, fd))
+    out.append((1, 3, [fdc[5], fdc[5], fdc[5]]))
+    return out
+
+
+def lattice(rng):
+    return rng.choice([0.0, 1.0, 2.0, 10.0, 100.0, -3.0, 0.5, 0.25])
+
+
+def gen_accumulate(rng, tier):
+    fdc = flowdircode(); out = []
+    for (nr, nc, fd) in acyclic_grids(rng, tier) + flow_grids(rng, tier, n_random=20)[::7]:
+        n = nr * nc
+        f = [lattice(rng) for _ in range(n)]
+        for nprint in (1, 0):
+            out.append([nr, nc, nprint, rng.choice([n, n + 5, 10 ** 6, 1, 2]), -1.0, fdc, fd, f, list(f)])
+    out.append([0, 0, 1, 5, -1.0, fdc, [], [], []])
+    out.append([2, 0, 1, 5, -1.0, fdc, [], [], []])
+    out.append([1, 1, 1, 0, -1.0, fdc, [0], [1.0], [1.0]])
+    return out
+
+
+def gen_accumulate_acyclic(rng, tier):
+    fdc = flowdircode(); out = []
+    for (nr, nc, fd) in acyclic_grids(rng, tier, n=120):
+        n = nr * nc
+        f = [lattice(rng) for _ in range(n)]
+        out.append([nr, nc, rng.choice([1, 0, 7]), rng.choice([n, n + 3, 10 ** 6]), rng.choice([-1.0, NAN, 0.0]), fdc, fd, f, list(f)])
+    out.append([1, 3, 1, 3, -1.0, fdc, [fdc[5]] * 3, [1.0, 10.0, 100.0], [1.0, 10.0, 100.0]])
+    return out
+
+
+def gen_slope(rng, tier):
+    fdc = flowdircode(); out = []
+    for (nr, nc, fd) in flow_grids(rng, tier, n_random=30)[::5]:
+        n = nr * nc
+        out.append([nr, nc, rng.choice([0, 1, 3]), rng.choice([1.0, 0.5, 0.0]), fdc, fd, [lattice(rng) for _ in range(n)], [7.0] * n])
+    out.append([0, 3, 1, 1.0, fdc, [], [], []])
+    return out
+
+
+def gen_slice(rng, tier):
+    out = []
+    for (nr, nc, xll, yll, csz) in small_grids(rng, tier)[::2]:
+        n = nr * nc
+        data = [lattice(rng) for _ in range(n)]
+        pts = []
+        for _ in range(12):
+            pts += [xll + csz * rng.randint(-8, 8 * nc + 8) / 8, yll + csz * rng.randint(-8, 8 * nr + 8) / 8]
+        pts += [NAN, 0.0, 1e300, -1e300]
+        m = len(pts) // 2
+        out.append([nr, nc, xll, yll, csz, data, m, pts, [7.0] * m])
+    return out
+
+
+def gen_intersect(rng, tier):
+    out = []
+    for (nr, nc, xll, yll, csz) in small_grids(rng, tier)[::2]:
+        for ratio in (1, 2, 4):
+            csa = csz / ratio
+            pts = []
+            npts = rng.randint(0, 14)
+            for _ in range(npts):
+                pts += [xll + csa * (rng.randint(-4, nc * ratio + 4) + 0.5), yll + csa * (rng.randint(-4, nr * ratio + 4) + 0.5)]
+            n = nr * nc
+            out.append([nr, nc, xll, yll, csz, csa, npts, pts, n, [7], [7] * n, [7.0] * n])
+    return out
+
+
+def gen_voronoi(rng, tier):
+    out = []
+    for (nr, nc, xll, yll, csz) in small_grids(rng, tier)[::2]:
+        n = nr * nc
+        cells = [c for c in range(n) if rng.random() < 0.7]
+        for npts in (0, 1, 2, 3, 6):
+            pts = []
+            for _ in range(npts):
+                pts += [xll + csz * rng.randint(-2, 2 * nc + 2) / 2, yll + csz * rng.randint(-2, 2 * nr + 2) / 2]
+            out.append([nr, nc, xll, yll, csz, len(cells), cells, npts, pts, [7.0] * npts])
+    return out
+
+
+def gen_delineate_area(rng, tier):
+    fdc = flowdircode(); out = []
+    for (nr, nc, fd) in flow_grids(rng, tier, n_random=30)[::4] + acyclic_grids(rng, tier, n=30):
+        n = nr * nc
+        outlet = rng.randrange(-1, n + 1)
+        inl = [rng.randrange(-1, n + 1) for _ in range(rng.choice([0, 0, 1, 2]))]
+        for nval in (n + 1, rng.randint(0, n + 1), 1):
+            out.append([nr, nc, fdc, fd, outlet, len(inl), inl, nval, [7] * max(nval, 0), [7] * max(nval, 0), [7] * max(nval, 0)])
+    return out
+
+
+def gen_boundary(rng, tier):
+    out = []
+    for (nr, nc, _, _, _) in small_grids(rng, tier)[::3]:
+        n = nr * nc
+        for _ in range(4):
+            cells = sorted({rng.randrange(n) for _ in range(rng.randint(1, n))})
+            rng.shuffle(cells)
+            mask = [1 if c in cells else 0 for c in range(n)]
+            m = len(cells)
+            out.append([nr, nc, m, cells, [7] * m, mask, [7] * m])
+        out.append([nr, nc, 1, [0], [7], [1] + [0] * (n - 1), [7]])
+        out.append([nr, nc, 0, [], [], [0] * n, []])
+    out.append([6, 6, 2, [0, 35], [7, 7], [1] + [0] * 34 + [1], [7, 7]])
+    return out
+
+
+def gen_exclude(rng, tier):
+    out = []
+    for n in (0, 1, 2, 3, 4, 7):
+        out.append([n, 1e-6, [lattice(rng) for _ in range(2 * n)], [7] * n])
+    return out
+
+
+def gen_river(rng, tier):
+    fdc = flowdircode(); out = []
+    for (nr, nc, fd) in flow_grids(rng, tier, n_random=30)[::4] + acyclic_grids(rng, tier, n=40):
+        n = nr * nc
+        for start in (rng.randrange(n), -1, n):
+            nval = rng.choice([0, 1, 2, n + 2])
+            out.append([nr, nc, 1.0, 2.0, 0.5, fdc, fd, start, nval, [7], [7] * nval, [7.0] * (5 * nval)])
+    return out
+
+
+def gen_flowpath(rng, tier):
+    fdc = flowdircode(); out = []
+    for (nr, nc, fd) in flow_grids(rng, tier, n_random=30)[::4] + acyclic_grids(rng, tier, n=40):
+        n = nr * nc
+        cells = [rng.randrange(-1, n + 1) for _ in range(rng.randint(0, n + 1))]
+        out.append([nr, nc, fdc, fd, len(cells), cells, rng.randrange(-1, n + 1), [7.0] * (3 * len(cells))])
+    return out
+
+
+def gen_inside(rng, tier):
+    out = []
+    polys = [[0, 0, 4, 0, 4, 4, 0, 4], [0, 0, 4, 0, 4, 4, 0, 4, 0, 0], [0, 0, 4, 0, 2, 3], [0, 0, 2, 1, 4, 0, 4, 4, 2, 2, 0, 4],
+             [0, 0, 4, 4, 4, 0, 0, 4], [1, 1, 1, 1, 3, 1, 3, 3, 1, 3], [0, 0]]
+    for poly in polys:
+        poly = [float(v) for v in poly]
+        nv = len(poly) // 2
+        xs = poly[0::2]; ys = poly[1::2]
+        pts = []
+        for x8 in range(-4, 40, 3):
+            for y8 in range(-4, 40, 3):
+                pts += [x8 / 8 + 1 / 16, y8 / 8 + 1 / 32]
+        pts += [NAN, 1.0, 1.0, NAN]
+        m = len(pts) // 2
+        for nprint in (0, 7):
+            out.append([nprint, m, pts, nv, poly, 1e-8, [min(xs), max(xs)], [min(ys), max(ys)], [0] * m])
+    out.append([0, 0, [], 3, [0.0, 0.0, 1.0, 0.0, 0.0, 1.0], 1e-8, [0.0, 1.0], [0.0, 1.0], []])
+    return out
+
+
+def gen_inside_evenodd(rng, tier):
+    """lattice polygons (integer vertices) and query points on a shifted finer lattice: no point on an edge line at a level"""
+    out = []
+    for _ in range(40 if tier == 'quick' else 400):
+        nv = rng.randint(3, 7)
+        poly = []
+        for _ in range(nv):
+            poly += [float(rng.randint(0, 5)), float(rng.randint(0, 5))]
+        if rng.random() < 0.3:
+            poly += poly[:2]; nv += 1
+        xs = poly[0::2]; ys = poly[1::2]
+        pts = []
+        for _ in range(25):
+            pts += [rng.randint(-8, 48) / 8 + 1 / 64 + 1 / 1024, rng.randint(-8, 48) / 8 + rng.choice([0.0, 1 / 128])]
+        m = len(pts) // 2
+        out.append([0, m, pts, nv, poly, 1e-8, [min(xs), max(xs)], [min(ys), max(ys)], [0] * m])
+    return out
+
+
+# ----------------------------------------------------------------------------- other data / stat generators
+def gen_islin(rng, tier):
+    out = []
+    for n in range(0, 9):
+        for _ in range(6):
+            out.append([n, 0.0, 1e-6, rng.choice([1, 2, 3]), [rng.choice([0.0, 1.0, 2.0, 3.0, NAN, -1.0]) for _ in range(n)], [7] * n])
+    return out
+
+
+def gen_eckhardt(rng, tier):
+    out = []
+    for n in range(0, 6):
+        for tt in (0, 1, 2):
+            out.append([n, tt, rng.choice([0.95, 1.5, -1.0]), rng.choice([20.0, 0.0]), rng.choice([0.8, 2.0]), [rng.choice([0.0, 1.0, 5.0, NAN, -1.0]) for _ in range(n)], [7.0] * n])
+    return out
+
+
+def gen_isleap(rng, tier):
+    return [[y] for y in list(range(-8, 9)) + [1900, 2000, 2024, 2023, 2100, -400, 2 ** 30]]
+
+
+def gen_daysinmonth(rng, tier):
+    return [[y, m] for y in (1900, 2000, 2023, 2024, -4) for m in range(-1, 15)]
+
+
+def gen_dayofyear(rng, tier):
+    return [[m, d] for m in range(-1, 15) for d in (-1, 0, 1, 28, 31, 32)]
+
+
+def gen_add1month(rng, tier):
+    return [[[y, m, d]] for y in (1999, 2000, 2023, 2024) for m in range(0, 14) for d in (0, 1, 28, 29, 30, 31, 32)]
+
+
+def gen_getdate(rng, tier):
+    return [[float(v), [7, 7, 7]] for v in (20000229, 20230229, 19991231, 0, -5, 1e10, 1e300, -1e300, 20001301, 20000100, 2000010.5)] + [[NAN, [7, 7, 7]]]
+
+
+def gen_comparedates(rng, tier):
+    ds = [[2000, 1, 1], [2000, 1, 2], [2000, 2, 1], [1999, 12, 31]]
+    return [[a, b] for a in ds for b in ds]
+
+
+def gen_pareto(rng, tier):
+    out = []
+    vals = [0.0, 1.0, 2.0, NAN, -1.0]
+    for n in range(0, 5):
+        for nc in (0, 1, 2, 3):
+            for _ in range(8):
+                out.append([n, nc, rng.choice([1, -1]), [rng.choice(vals) for _ in range(n * nc)], [7] * n])
+    return out
+
+
+def gen_arsim(rng, tier):
+    out = []
+    for p in (0, 1, 2, 3, 10, 11):
+        for n in (0, 1, 2, 5):
+            params = [rng.choice([0.5, -0.25, 0.0, 1.0]) for _ in range(max(p, 0))]
+            if rng.random() < 0.1 and params:
+                params[0] = NAN
+            out.append([n, p, rng.choice([0.0, 1.0, NAN]) if rng.random() < 0.15 else rng.choice([0.0, 2.0, -1.0]), rng.choice([0.0, 3.0]), params,
+                        [rng.choice([0.0, 1.0, -2.0, NAN, 0.5]) for _ in range(n)], [7.0] * n])
+    return out
+
+
+def gen_crps(rng, tier):
+    out = []
+    vals = [0.0, 1.0, 2.0, 3.0, 0.5]
+    for n in (0, 1, 2, 3):
+        for m in (1, 2, 3, 5):
+            for _ in range(6):
+                out.append([n, m, rng.choice([0, 1]), rng.choice([0, 1]), [rng.choice(vals) for _ in range(n)], [rng.choice(vals) for _ in range(n * m)],
+                            [0.25] * n, [7.0] * ((m + 1) * 7), [0.0] * 5])
+    return out
+
+
+def gen_ensrank(rng, tier):
+    out = []
+    vals = [0.0, 1.0, 2.0, 3.0]
+    for n in (-1, 0, 1, 2, 3, 4):
+        for m in (0, 1, 2, 3):
+            out.append([1e-8, n, m, [rng.choice(vals) for _ in range(max(n, 0) * m)], [7.0] * (max(n, 0) ** 2), [7.0] * max(n, 0)])
+    out.append([0.0, 2, 2, [1.0] * 4, [7.0] * 4, [7.0] * 2])
+    return out
+
+
+def gen_adtest(rng, tier):
+    out = []
+    for n in (0, 1, 2, 5):
+        for _ in range(5):
+            xs = sorted(rng.choice([0.125, 0.25, 0.5, 0.75, 0.9]) for _ in range(n))
+            out.append([n, xs, [7.0, 7.0]])
+    out.append([3, [0.5, NAN, 0.7], [7.0, 7.0]])
+    out.append([3, [0.5, 1.5, 0.7], [7.0, 7.0]])
+    out.append([3, [-0.5, 0.5, 0.7], [7.0, 7.0]])
+    out.append([3, [0.5, 0.25, 0.7], [7.0, 7.0]])
+    return out
+
+
+# every kernel reachable from the Python API: (file, function / contract name, generator)
+ALL_KERNELS = [
+    (GRID, 'getnxy', gen_getnxy), (GRID, 'getcoord', gen_getcoord), (GRID, 'c_coord2cell', gen_coord2cell), (GRID, 'c_cell2rowcol', gen_cell2rowcol),
+    (GRID, 'c_cell2coord', gen_cell2coord), (GRID, 'c_neighbours', gen_neighbours), (GRID, 'c_slice', gen_slice), (GRID, 'c_upstream', gen_upstream),
+    (GRID, 'c_downstream', gen_downstream), (GRID, 'c_accumulate', gen_accumulate), (GRID, 'c_intersect', gen_intersect), (GRID, 'c_voronoi', gen_voronoi),
+    (GRID, 'c_slope', gen_slope),
+    (CATCH, 'c_delineate_area', gen_delineate_area), (CATCH, 'c_delineate_boundary', gen_boundary), (CATCH, 'c_exclude_zero_area_boundary', gen_exclude),
+    (CATCH, 'c_delineate_river', gen_river), (CATCH, 'c_delineate_flowpathlengths_in_catchment', gen_flowpath),
+    (INSIDE, 'c_inside', gen_inside),
+    (DUTILS, 'c_aggregate', gen_aggregate), (DUTILS, 'c_flathomogen', gen_flathomogen), (QC, 'c_islin', gen_islin), (VAR2H, 'c_var2h', gen_var2h),
+    (BASEFLOW, 'c_eckhardt', gen_eckhardt),
+    (DATEUTILS, 'c_dateutils_isleapyear', gen_isleap), (DATEUTILS, 'c_dateutils_daysinmonth', gen_daysinmonth), (DATEUTILS, 'c_dateutils_dayofyear', gen_dayofyear),
+    (DATEUTILS, 'c_dateutils_add1month', gen_add1month), (DATEUTILS, 'c_dateutils_add1day', gen_add1month), (DATEUTILS, 'c_dateutils_getdate', gen_getdate),
+    (DATEUTILS, 'c_dateutils_comparedates', gen_comparedates),
+    (CRPS, 'c_crps', gen_crps), (DSCORE, 'c_ensrank', gen_ensrank), (ARMODELS, 'c_armodel_sim', gen_arsim), (ARMODELS, 'c_armodel_residual', gen_arsim),
+    (PARETO, 'c_paretofront', gen_pareto), (ANDARL, 'ADtest', gen_adtest), (AD, 'c_ad_test', gen_adtest),
+]
+
+
+# ----------------------------------------------------------------------------- generic driver for the kernel-level part of a property
+BASE_ASSUMPTIONS = [
+    'doubles are modelled as mathematical reals plus a NaN flag: no rounding, no overflow to infinity, x/0.0 is an arbitrary value',
+    'SANE magnitude restriction on integer scalars reaching a kernel straight from Python (grid dimensions <= 2**30, int-indexed arrays < 2**30 elements, |time stamps| <= 2**50)',
+    'the VC generator (vf/engc.py) and the contract-expression translators are trusted; they are cross-checked on every run by executing the real kernels (clang ASan+UBSan) against the same contracts on enumerated inputs',
+    'z3 5.1 / cvc5 1.0 / z3 4.8 soundness',
+    'distinct pointer parameters of a kernel do not overlap (established by the Cython wrappers: separately allocated numpy buffers)',
+]
+
+
+def load_contracts():
+    import importlib
+    for m in ('c_grid', 'c_catchment', 'c_inside', 'c_data', 'c_stat'):
+        importlib.import_module('contracts.' + m)
+
+
+def run_kernels(run, tasks, quick_cap=400):
+    """tasks: [(relpath, contract name, generator)]: prove every obligation, run the bounded differential check"""
+    load_contracts()
+    gens = {}
+    for rel, fn, gen in tasks:
+        if gen is not None:
+            def mk(gen):
+                def g(rng, tier):
+                    cases = gen(rng, tier)
+                    if tier == 'quick' and len(cases) > quick_cap:
+                        idx = sorted(rng.sample(range(len(cases)), quick_cap))
+                        cases = [cases[i] for i in idx]
+                    return cases
+                return g
+            gens[(rel, fn)] = mk(gen)
+    run.c_proofs([(rel, fn) for rel, fn, _ in tasks], consts=fdc_consts(), generators=gens,
+                 timeout_ms=20000 if run.tier == 'quick' else 90000)
+    for a in BASE_ASSUMPTIONS:
+        if a not in run.assumptions:
+            run.assumptions.append(a)
+
+
+def kernels(*names):
+    tab = {(fn): (rel, fn, gen) for rel, fn, gen in ALL_KERNELS}
+    tab['c_accumulate#acyclic'] = (GRID, 'c_accumulate#acyclic', gen_accumulate_acyclic)
+    tab['c_inside#evenodd'] = (INSIDE, 'c_inside#evenodd', gen_inside_evenodd)
+    return [tab[n] for n in names]
